@@ -77,6 +77,16 @@ def cov (I : RDIn np ns nii nij α) (κ : Fin ns) (a : Fin 3) (κ' : Fin ns) (b 
   (sumFin nii fun q => sumFin (np * 3) fun ν => Aii I κ a q ν * Aii I κ' b q ν)
   + (sumFin nij fun q => sumFin (np * 3) fun ν => A1 I κ a q ν * A1 I κ' b q ν + A2 I κ a q ν * A2 I κ' b q ν)
 
+/-- the full supercell matrix `uu_inv` in closed form (the code obtains it from the rows of the primitive atoms by
+`distribute_force_constants_by_translations`): weights `g` on the same real normal modes, mass factor `s_κ s_κ'/N = rm_κ rm_κ'/N²`. -/
+def covInv (I : RDIn np ns nii nij α) (gii : Fin nii → Fin (np * 3) → α) (gij : Fin nij → Fin (np * 3) → α)
+    (κ : Fin ns) (a : Fin 3) (κ' : Fin ns) (b : Fin 3) : α :=
+  ((sumFin nii fun q => sumFin (np * 3) fun ν =>
+      gii q ν * (I.eii q (row (I.s2pp κ) a) ν * I.cosii q κ) * (I.eii q (row (I.s2pp κ') b) ν * I.cosii q κ'))
+   + (sumFin nij fun q => sumFin (np * 3) fun ν =>
+      gij q ν * (wij I q ν κ a * Cx.conj (wij I q ν κ' b) + Cx.conj (wij I q ν κ a) * wij I q ν κ' b).re))
+  * (I.rm κ * I.rm κ') / (((nii + 2 * nij : Nat) : α) * ((nii + 2 * nij : Nat) : α))
+
 end sampler
 
 /-! ### correlation matrices through `DynmatToForceConstants` -/
